@@ -32,6 +32,18 @@ CloseVerdict(r) ==
         ELSE IF c.threads > c.threads0 + 2 \/ c.fds > c.fds0 + 2
              THEN V("C17", "threads or descriptors accumulate over open/close cycles")
         ELSE OK
+    ELSE IF r.kind = "mid-merge-reopen" THEN
+        IF ~r.parked THEN V("drift", "no background merge could be stopped in the middle of its copies")
+        ELSE IF r.drop_returned_ms < 0 THEN V("C17", "dropping the store did not return")
+        ELSE IF r.reopen # "ok" THEN V("C17", "the directory cannot be opened again at once after the drop (a background merge was in flight): " \o r.reopen)
+        ELSE IF \E i \in 1..Len(r.reads_through_the_reopened_store) :
+                    r.reads_through_the_reopened_store[i].res # r.reads_through_the_reopened_store[i].want
+               THEN V("C17", "a store opened at once after the drop misbehaves: background work that was in flight at the drop goes on in its directory")
+        ELSE IF r.final # "ok" THEN V("C17", "after a drop during a background merge and an immediate reopen the directory is damaged: " \o r.final)
+        ELSE IF \E m \in DOMAIN r.after : r.after[m] # "closed"
+               THEN V("C17", "an operation through a remaining handle does not fail with 'closed' after the drop (mid-merge-reopen)")
+        ELSE IF r.bg_gone_ms < 0 THEN V("C17", "the background worker thread does not exit after the drop (mid-merge-reopen)")
+        ELSE OK
     ELSE IF ~r.parked THEN V("drift", "the scenario could not park a thread at its point")
     ELSE IF r.drop_returned_ms < 0 THEN V("C17", "dropping the store did not return")
     ELSE IF \E m \in DOMAIN r.after : r.after[m] # "closed"
